@@ -207,7 +207,7 @@ class HPAngle(object):
         :param hp_angle: float HP angle
         """
         self.hp_angle = float(hp_angle)
-        hp_dec_str = f'{self.hp_angle:.17f}'.split('.')[1]
+        hp_dec_str = f'{self.hp_angle:.13f}'.split('.')[1]
         if int(hp_dec_str[0]) > 5:
             raise ValueError(f'Invalid HP Notation: 1st decimal place greater '
                              f'than 5: {self.hp_angle}')
